@@ -67,6 +67,23 @@ static bool check_zone(const zp::Zone& z, zp::Handle& h, bool in_rc, bool full, 
     }
     EV->cls("anchor_" + an.tags[i]);
   }
+  // the same anchors once more in a galloping order (the sweep above asks in nearly ascending order): from anchor i to
+  // the anchors 4, 8, 16 and 32 positions further on and back - an answer must not depend on what was asked before
+  {
+    std::vector<int64_t> a = an.instants;
+    std::sort(a.begin(), a.end()); a.erase(std::unique(a.begin(), a.end()), a.end());
+    const size_t step = (full || a.size() < 400) ? 1 : 3;
+    for (size_t i = 0; i < a.size(); i += step)
+      for (size_t s : {(size_t)4, (size_t)8, (size_t)16, (size_t)32})
+        for (int dir : {1, -1}) {
+          if (dir > 0 ? i + s >= a.size() : i < s) continue;
+          (void)h.lookup(a[i]);
+          const int64_t t = a[dir > 0 ? i + s : i - s];
+          cur_t = t;
+          EV->eval(); EV->cls("galloping_order_probe");
+          if (!check_instant(z, h, t, why)) { fc->set("t", t); fc->set("anchor", "galloping order after lookup(" + vf::i64_str(a[i]) + ")"); fc->set("prime_t", a[i]); return false; }
+        }
+  }
   if (in_rc) {
     // extra generated probes: (anchor, delta) pairs and uniform instants
     int n = *vf::range<int>(4, 16);
@@ -92,6 +109,7 @@ static bool replay(const vf::Case& c, std::string* why) {
   if (!z.model.in_domain()) { *why = "zone outside the property's domain"; return true; }
   zp::Handle h = zp::open_public(z.load_name);
   if (!h.ok) { *why = "well-formed TZif file failed to load"; return false; }
+  if (c.has("prime_t")) (void)h.lookup((int64_t)c.num("prime_t"));
   if (c.has("t") && !check_instant(z, h, (int64_t)c.num("t"), why)) return false;
   if (c.has("t") && !check_subsecond(h.tz, (int64_t)c.num("t"), why)) return false;
   if (c.has("t") && !c.has("sweep")) return true;
@@ -107,7 +125,7 @@ static void run(const vf::Args& a, vf::Evidence& ev, vf::Reporter& rep) {
             "instants: anchor + delta, anchors = every recorded transition, rule transitions of every year of the "
             "403-year table around the seam, their 400-year images up to the last representable year, +-2^59, "
             "+-2^31, int64 min/max; deltas = 0, +-1, +-2, +-each offset(+-1), +-1h, +-1d; plus generated uniform "
-            "instants; at delta 0/+-1 also the templated lookup(time_point<ms/us/ns>) inside that second. Non-trivial = within one day of a change point or outside the recorded range; distinct by (zone bytes, t).";
+            "instants; the anchors again in a galloping order (4/8/16/32 positions forward and back); at delta 0/+-1 also the templated lookup(time_point<ms/us/ns>) inside that second. Non-trivial = within one day of a change point or outside the recorded range; distinct by (zone bytes, t).";
   zc::Ctx c{&a, &ev, &rep};
   zc::ZoneProp p;
   p.check_zone = check_zone;
